@@ -225,12 +225,26 @@ static int wcoll_ctx_read_line (struct wcoll_ctx *ctx, char *line)
 static int wcoll_ctx_read_stream (struct wcoll_ctx *ctx, FILE *fp)
 {
     char buf [LINEBUFSIZE];
+    char *line = NULL;
 
     assert (ctx != NULL);
     assert (fp != NULL);
 
-    while (fgets(buf, LINEBUFSIZE, fp) != NULL)
-        wcoll_ctx_read_line (ctx, buf);
+    /*
+     *  A line may be longer than buf: collect its pieces before it is
+     *   parsed, so that no host name is ever split.
+     */
+    while (fgets(buf, LINEBUFSIZE, fp) != NULL) {
+        xstrcat (&line, buf);
+        if (strchr (buf, '\n') == NULL)
+            continue;
+        wcoll_ctx_read_line (ctx, line);
+        Free ((void **) &line);
+    }
+    if (line != NULL) {     /* last line without newline */
+        wcoll_ctx_read_line (ctx, line);
+        Free ((void **) &line);
+    }
     return 0;
 }
 
